@@ -35,6 +35,12 @@ enum Call {
     ProverBytes,
     VerifierBytes,
     Compile(Vec<u8>),
+    /// A label nobody has used before in this process (cold label cache): compile, prove, verify,
+    /// mirrored on RM-verify (which never consults the cache).  Kind 0: one label shared by every
+    /// caller of the iteration (all miss at once), 1: unique per caller, 2: siblings of the shared
+    /// label (same length, same first 40 bytes, last byte differs).  Resolved at run time.
+    FreshKind(u8),
+    Fresh(Vec<u8>),
 }
 
 #[derive(Clone, Debug, PartialEq)]
@@ -51,6 +57,8 @@ struct Shared {
     tape: Tape,
     msgs: Vec<Msg>,
     plans: Vec<Vec<(Call, Outcome, EnvCfg)>>,
+    label: Vec<u8>,
+    run: u64,
 }
 
 fn exec(sh: &Shared, call: &Call, env: &EnvCfg) -> Outcome {
@@ -77,14 +85,58 @@ fn exec(sh: &Shared, call: &Call, env: &EnvCfg) -> Outcome {
             Ok((_, v)) => Outcome::Bytes(v.to_bytes()),
             Err(e) => Outcome::Bytes(format!("{:?}", e).into_bytes()),
         },
+        Call::FreshKind(_) => unreachable!("resolved by the caller thread"),
+        Call::Fresh(label) => {
+            let (p, v) = match deploy::compile(&sh.pp, label, &sh.prog, Route::WithCircuit, env) {
+                Ok(x) => x,
+                Err(e) => return Outcome::Bytes(format!("{:?}", e).into_bytes()),
+            };
+            let mut rng = ScriptedRng::new(0xF5E5 ^ crate::prng::digest(label));
+            let (proof, pi) = match deploy::prove(&p, &sh.prog, &sh.tape, &mut rng, PlonkVersion::V3, env) {
+                Ok(x) => x,
+                Err(e) => return Outcome::Bytes(format!("prove {:?}", e).into_bytes()),
+            };
+            let vb = v.to_bytes();
+            let pb = proof_bytes(&proof);
+            let real = deploy::verify(&v, &proof, &pi, PlonkVersion::V3, env).is_ok();
+            let rm = crate::rm_verify::verify(&vb, &pb, &pi, crate::rm_verify::Version::V3).accepted();
+            assert!(real, "I-determ/label-cache: an honest proof under a fresh label {:02x?} is rejected by its own verifier", label);
+            assert!(rm, "I-determ/label-cache: the proof made under a fresh label {:02x?} is not a proof for that label (reference transcript)", label);
+            let mut out = vb;
+            out.extend_from_slice(&pb);
+            Outcome::Bytes(out)
+        }
     }
+}
+
+fn fresh_label(base: &[u8], run: u64, it: u64, caller: usize, kind: u8) -> Vec<u8> {
+    // >= 40 common bytes, then the iteration, then the distinguishing tail
+    let mut l = base.to_vec();
+    l.extend_from_slice(&[0xF5; 40]);
+    l.extend_from_slice(&run.to_le_bytes());
+    l.extend_from_slice(&it.to_le_bytes());
+    l.push(match kind {
+        0 => 0,
+        1 => 0x40 + caller as u8,
+        _ => 1 + (caller as u8 % 3),
+    });
+    l
 }
 
 fn task_key() -> usize {
     shuttle::current::get_current_task().map(|t| usize::from(t) + 1).unwrap_or(0)
 }
 
+/// Rayon-task boundaries as scheduling points: on in two of three iterations.  With them off the
+/// only scheduling points are the library's own synchronisation operations, so the scheduler's
+/// choices are not diluted over hundreds of task boundaries and the few interleavings of the
+/// lock operations themselves are actually enumerated.
+static RAYON_YIELDS: std::sync::atomic::AtomicBool = std::sync::atomic::AtomicBool::new(true);
+
 fn yield_point() {
+    if !RAYON_YIELDS.load(std::sync::atomic::Ordering::Relaxed) {
+        return;
+    }
     if shuttle::current::get_current_task().is_some() {
         shuttle::thread::sleep(std::time::Duration::from_millis(0));
     }
@@ -133,17 +185,25 @@ fn build_shared_inner(seed: u64, run: u64, thorough: bool, st: &mut Stats) -> Op
         msgs.push(m);
     }
     let callers = if thorough { 2 + w.usize(15) } else { 2 + w.usize(3) };
-    let mut sh = Shared { prover, verifier, pp, prog: sc.prog.clone(), tape: sc.tape.clone(), msgs, plans: Vec::new() };
+    let mut sh = Shared { prover, verifier, pp, prog: sc.prog.clone(), tape: sc.tape.clone(), msgs, plans: Vec::new(), label: sc.label.clone(), run };
     let mut plans = Vec::new();
+    // label storm (half of the scenarios): every caller starts with a call under a label the
+    // process has never seen, most of them the same one, so that the cold path of the label
+    // cache is entered by several callers at once
+    let storm = w.chance(1, 2);
     for c in 0..callers {
         let n_calls = 1 + w.usize(3);
         let mut plan = Vec::new();
-        for _ in 0..n_calls {
-            let call = match w.below(8) {
+        for j in 0..n_calls {
+            let call = if storm && j == 0 {
+                Call::FreshKind([0u8, 0, 1, 2][w.usize(4)])
+            } else {
+                match w.below(10) {
                 0..=2 => Call::Prove(sc.rng_seed ^ w.below(3)),
                 3..=4 => Call::Verify(w.usize(2)),
                 5 => Call::ProverBytes,
                 6 => Call::VerifierBytes,
+                8..=9 => Call::FreshKind(w.below(3) as u8),
                 _ => {
                     let mut l = sc.label.clone();
                     if w.chance(1, 2) {
@@ -151,9 +211,11 @@ fn build_shared_inner(seed: u64, run: u64, thorough: bool, st: &mut Stats) -> Op
                     }
                     Call::Compile(l)
                 }
+                }
             };
-            // sequential result of the same call
-            let expected = exec(&sh, &call, &canon);
+            // sequential result of the same call (fresh-label calls are compared after the join instead:
+            // executing them beforehand would warm the cache they are meant to find cold)
+            let expected = if matches!(call, Call::FreshKind(_)) { Outcome::Verdict(true) } else { exec(&sh, &call, &canon) };
             // the caller's own environment: derived from (run seed, caller index), independent of the interleaving
             let mut e = Rng::new(derive(seed, &[tag("C18-mt"), run, c as u64, plan.len() as u64]));
             let env = EnvCfg { threads: *e.pick(POOL_MENU), sched_seed: e.u64() | 1, sched_budget: u64::MAX, hash_seed: e.u64() | 1 };
@@ -172,29 +234,45 @@ fn build_shared_inner(seed: u64, run: u64, thorough: bool, st: &mut Stats) -> Op
     Some((Arc::new(sh), desc))
 }
 
-fn body(sh: Arc<Shared>) {
+fn body(sh: Arc<Shared>, it: u64) {
     let mut handles = Vec::new();
     for (c, plan) in sh.plans.iter().enumerate() {
         let sh2 = sh.clone();
         let plan = plan.clone();
         handles.push(shuttle::thread::spawn(move || {
+            let mut fresh: Vec<(Vec<u8>, Outcome)> = Vec::new();
             for (i, (call, expected, env)) in plan.iter().enumerate() {
+                if let Call::FreshKind(k) = call {
+                    let label = fresh_label(&sh2.label, sh2.run, it, c, *k);
+                    let got = exec(&sh2, &Call::Fresh(label.clone()), env);
+                    fresh.push((label, got));
+                    continue;
+                }
                 let got = exec(&sh2, call, env);
                 assert!(got == *expected, "I-determ: caller {} call {} ({:?}) returned something else than the same call sequentially", c, i, call);
             }
+            fresh
         }));
     }
+    let mut fresh: Vec<(Vec<u8>, Outcome)> = Vec::new();
     for h in handles {
-        h.join().expect("caller thread");
+        fresh.extend(h.join().expect("caller thread"));
+    }
+    // fresh-label calls: the same calls made sequentially afterwards must return the same bytes
+    let canon = EnvCfg::canonical();
+    for (label, got) in fresh {
+        let again = exec(&sh, &Call::Fresh(label.clone()), &canon);
+        assert!(again == got, "I-determ/label-cache: compile+prove under the fresh label {:02x?} returned something else concurrently than sequentially", label);
     }
 }
 
 fn run_iteration(sched_seed: u64, it: u64, use_pct: bool, sh: Arc<Shared>) {
     let s = derive(sched_seed, &[it]);
+    RAYON_YIELDS.store(it % 3 != 1, std::sync::atomic::Ordering::Relaxed);
     if use_pct {
-        Runner::new(PctScheduler::new_from_seed(s, 3, 1), config(None)).run(move || body(sh.clone()));
+        Runner::new(PctScheduler::new_from_seed(s, 3, 1), config(None)).run(move || body(sh.clone(), it));
     } else {
-        Runner::new(RandomScheduler::new_from_seed(s, 1), config(None)).run(move || body(sh.clone()));
+        Runner::new(RandomScheduler::new_from_seed(s, 1), config(None)).run(move || body(sh.clone(), it));
     }
 }
 
@@ -284,9 +362,10 @@ pub fn cmd_mt(seed: u64, thorough: bool, shard: (u64, u64), runs: u64, out: &str
                     ("detail", J::s(format!("concurrent callers diverge from sequential results; {}", desc))),
                     ("replay", J::s(path)),
                 ]));
-                if violations.len() >= 2 {
-                    break;
-                }
+                // a failed execution leaves the library's static shuttle mutex in the state of the
+                // aborted tasks; nothing more can be executed in this process
+                skipped += (runs.saturating_sub(r + 1) + shard.1 - 1) / shard.1;
+                break;
             }
         }
         if st.samples.len() < 4 {
@@ -335,7 +414,7 @@ pub fn cmd_mt_selfcheck(seed: u64) {
     for r in 0..4 {
         if let Some((sh, _)) = build_shared(seed, r, false, &mut st) {
             let sh2 = sh.clone();
-            shuttle::check_uncontrolled_nondeterminism(move || body(sh2.clone()), 5);
+            shuttle::check_uncontrolled_nondeterminism(move || body(sh2.clone(), 1 << 40), 5);
         }
     }
     println!("SELFCHECK ok");
